@@ -32,6 +32,47 @@ type vEv struct {
 	bs    []byte
 	sym   vSym
 	accErr bool // the accessor of the value's own type returned an error
+	after  uint64 // containers: what the Reader showed right after StepOut (vObserveState), +1<<63 when recorded
+}
+
+// vObserveState packs what a Reader shows between values (e.g. right after StepOut) into one word: type, nullness,
+// presence of field name / annotations, and for every accessor whether it is refused. Refused calls must not change it.
+func vObserveState(r Reader) uint64 {
+	o := uint64(r.Type())
+	bit := func(i uint, c bool) {
+		if c {
+			o |= 1 << i
+		}
+	}
+	bit(8, r.IsNull())
+	fn, ferr := r.FieldName()
+	bit(9, fn != nil)
+	bit(10, ferr != nil)
+	as, aerr := r.Annotations()
+	bit(11, len(as) > 0)
+	bit(12, aerr != nil)
+	_, e := r.BoolValue()
+	bit(13, e != nil)
+	_, e = r.IntSize()
+	bit(14, e != nil)
+	_, e = r.Int64Value()
+	bit(15, e != nil)
+	_, e = r.BigIntValue()
+	bit(16, e != nil)
+	_, e = r.FloatValue()
+	bit(17, e != nil)
+	_, e = r.DecimalValue()
+	bit(18, e != nil)
+	_, e = r.TimestampValue()
+	bit(19, e != nil)
+	_, e = r.StringValue()
+	bit(20, e != nil)
+	_, e = r.SymbolValue()
+	bit(21, e != nil)
+	_, e = r.ByteValue()
+	bit(22, e != nil)
+	bit(23, r.StepIn() != nil)
+	return o | 1<<63
 }
 
 func vSymOf(t *SymbolToken, err error) vSym {
@@ -167,6 +208,7 @@ func vTraverse(r Reader, depth, maxDepth int, poke bool, out *[]vEv) (stepErr bo
 		}
 		ev := vReadCurrent(r, depth)
 		*out = append(*out, ev)
+		idx := len(*out) - 1
 		if !ev.null && (ev.typ == ListType || ev.typ == SexpType || ev.typ == StructType) && depth < maxDepth {
 			if err := r.StepIn(); err != nil {
 				return true
@@ -177,6 +219,7 @@ func vTraverse(r Reader, depth, maxDepth int, poke bool, out *[]vEv) (stepErr bo
 			if err := r.StepOut(); err != nil {
 				return true
 			}
+			(*out)[idx].after = vObserveState(r)
 		}
 	}
 	return false
